@@ -235,6 +235,21 @@ def e2e(rnd, n):
                     clilib.run_cli(os.path.join(wd, "in.css"), [], wd)
                     gen, rep, ben_text = "cli", "cm_colors_report.html", ".a[title=\"x\"]"
                     bsheet = ".a[title=\"x\"]{color:#777777;background-color:#ffffff}\n"
+                elif route == 1 and k % 8 == 1:    # CLI: a directory tree in which one file NAME occurs twice, in a folder with a hostile name
+                    dname = pay.replace("/", "_").replace("\x00", "") or "d"
+                    try:
+                        os.makedirs(os.path.join(wd, "t", dname))
+                        os.makedirs(os.path.join(wd, "t", "plain"))
+                        open(os.path.join(wd, "t", dname, "same.css"), "w").write(".b{color:#777777}\n")
+                        open(os.path.join(wd, "t", "plain", "same.css"), "w").write(".p{color:#888888}\n")
+                        if k % 16 == 1:
+                            hn = dname + ".css"
+                            open(os.path.join(wd, "t", dname, hn), "w").write(".c{color:#777777}\n")
+                            open(os.path.join(wd, "t", "plain", hn), "w").write(".d{color:#888888}\n")
+                    except OSError:
+                        continue
+                    clilib.run_cli(os.path.join(wd, "t"), [], wd)
+                    gen, rep = "cli", "cm_colors_report.html"
                 elif route == 1 and k % 8 != 5:    # CLI: file name carrying the payload
                     fname = pay.replace("/", "_").replace("\x00", "") + ".css"
                     try:
@@ -271,7 +286,7 @@ def e2e(rnd, n):
                 # benign twin: same record shapes with harmless text
                 ben_pairs = []
                 for g in given:
-                    ben_pairs.append({kk: ("x" if isinstance(v, str) and kk not in ("original_level", "new_level") else v) for kk, v in g.items()})
+                    ben_pairs.append({kk: ("x" if isinstance(v, (str, os.PathLike)) and kk not in ("original_level", "new_level") else v) for kk, v in g.items()})
                 bpath = os.path.join(wd, "benign.html")
                 (orig_gen if gen == "cli" else orig_bulk)(ben_pairs, bpath)
                 b = parse(bpath)
